@@ -151,9 +151,12 @@ structure Fixes where
   /-- when the stored result of a dependency cannot be read while dependency outputs are loaded, its own
       dependencies are loaded, it is re-run (unless already produced in this build) and the loop continues -/
   loadFault : Bool
+  /-- minimal mode: a target with output checks gets the outputs of its direct dependencies loaded *before* the
+      pre-execution checks run (the checks are shell commands that may read them, as under `load_outputs=all`) -/
+  checkDeps : Bool
 deriving DecidableEq
 
-def Fixes.current : Fixes := ⟨true, true, true, true, true⟩
+def Fixes.current : Fixes := ⟨true, true, true, true, true, true⟩
 
 structure Params (κ : Type) where
   K : KeyState κ → κ
@@ -326,8 +329,9 @@ def tryHit (P : Params κ) (cfg : Cfg) (t : Target) (k : κ) (s : BState κ) : O
         | none => none
     else none
 
-/-- the walker callback for one target: dependencies first, change hash, task function -/
-def buildTarget (P : Params κ) (cfg : Cfg) (defs : Defs) (fuel : Nat) (t : Target) (s : BState κ) : BState κ :=
+/-- the walker callback for one target without the pre-loading of dependency outputs for output checks:
+    dependencies first, change hash, task function -/
+def buildTargetNoPre (P : Params κ) (cfg : Cfg) (defs : Defs) (fuel : Nat) (t : Target) (s : BState κ) : BState κ :=
   if depsOk s.st t.deps = false then failT s t.label else
   match depOhs s.st t.hdeps with
   | none => failT s t.label
@@ -340,5 +344,23 @@ def buildTarget (P : Params κ) (cfg : Cfg) (defs : Defs) (fuel : Nat) (t : Targ
       if !okl then failT s1 t.label else
       let (s2, ok) := execTarget P cfg defs t k (s.cache.taint t.label) s1
       if ok then s2 else failT s2 t.label
+
+/-- the walker callback for one target. In minimal mode a target with output checks first gets the outputs of its direct
+    dependencies materialised (`getTaskFunc`: `LoadDependencyOutputs` before `runOutputChecks`); a failure to do so fails
+    the target. (In the code the change hash is computed before that; loading dependency outputs does not touch resolved
+    inputs unless an input glob matches a dependency output — the open finding F-globout.) -/
+def buildTarget (P : Params κ) (cfg : Cfg) (defs : Defs) (fuel : Nat) (t : Target) (s : BState κ) : BState κ :=
+  if (cfg.minimal && P.fx.checkDeps && !t.checks.isEmpty && depsOk s.st t.deps) = true then
+    let (s0, ok0) := loadDepList P cfg defs fuel t.ldeps s
+    if !ok0 then failT s0 t.label else buildTargetNoPre P cfg defs fuel t s0
+  else buildTargetNoPre P cfg defs fuel t s
+
+theorem buildTarget_all_eq (P : Params κ) (cfg : Cfg) (defs : Defs) (fuel : Nat) (t : Target) (s : BState κ)
+    (hm : cfg.minimal = false) : buildTarget P cfg defs fuel t s = buildTargetNoPre P cfg defs fuel t s := by
+  simp [buildTarget, hm]
+
+theorem buildTarget_nochecks_eq (P : Params κ) (cfg : Cfg) (defs : Defs) (fuel : Nat) (t : Target) (s : BState κ)
+    (hc : t.checks = []) : buildTarget P cfg defs fuel t s = buildTargetNoPre P cfg defs fuel t s := by
+  simp [buildTarget, hc]
 
 end Grog.Exec
